@@ -62,3 +62,30 @@ def pretty(lines):
 
 def neighbours(lines, rng):
     return []
+
+
+class StorePart:
+    FAM = 1
+    generate = staticmethod(lambda rng, tier: generate(rng, tier))
+    monitor = staticmethod(monitor)
+    nontrivial = staticmethod(nontrivial)
+    histogram = staticmethod(histogram)
+    pretty = staticmethod(pretty)
+    neighbours = staticmethod(neighbours)
+
+
+class ApiPart(StorePart):
+    """the same store seen through the gRPC handlers (v1 Set / v2 PublishValue / sdv Set, Update, with
+    duplicates and mixed batches), read back through every API"""
+
+    @staticmethod
+    def generate(rng, tier):
+        n = 150 if tier == "quick" else 4000
+        return [("a%d" % i, H.gen_history(rng, H.W_API, plain_meta=0.6)) for i in range(n)]
+
+    @staticmethod
+    def histogram(lines, out):
+        return ["op:" + (H.OPN[l[0]] if 0 <= l[0] < len(H.OPN) else "?") for l in lines]
+
+
+PARTS = [StorePart, ApiPart]
